@@ -78,6 +78,10 @@ class Stats:
         self.distinct.add(h)
         for lab in out.labels:
             self.labels[lab] += 1
+        meta = case.get("meta") if isinstance(case, dict) else None
+        if isinstance(meta, dict) and meta.get("excluded"):
+            # input replaced by construction because of a confirmed finding
+            self.labels[f"excluded_by_construction={meta['excluded']}"] += 1
         if out.nontrivial:
             if h not in self.nontrivial:
                 self.nontrivial.add(h)
